@@ -38,6 +38,18 @@ var targets = []target{
 	{"ttlv/io.go", "sched"},
 	{"ttlv/encoder.go", "codec"},
 	{"ttlv/decoder.go", "codec"},
+	// the writers, readers and registries below the encoder/decoder: a change may introduce shared state there
+	// (a package-level scratch buffer, a lazily built index), which only shows when calls interleave inside them
+	{"ttlv/encoding_ttlv.go", "codec"},
+	{"ttlv/encoding_xml.go", "codec"},
+	{"ttlv/encoding_json.go", "codec"},
+	{"ttlv/encoding_text.go", "codec"},
+	{"ttlv/registry.go", "codec"},
+	{"ttlv/version.go", "codec"},
+	{"ttlv/ttlv.go", "codec"},
+	{"ttlv/reflect.go", "codec"},
+	{"ttlv/utils.go", "codec"},
+	{"ttlv/value.go", "codec"},
 }
 
 // resetFile generates the overlay-only file that empties every lazily filled, process-wide cache of a
